@@ -16,6 +16,7 @@ import (
 	"strconv"
 	"strings"
 	"sync"
+	"sync/atomic"
 	"time"
 )
 
@@ -480,7 +481,31 @@ func (c *Ctx) validate(f *Family, cases []json.RawMessage, shards int) (*traceOu
 		ws[s] = &TraceWriter{f: fh, w: bufio.NewWriterSize(fh, 1<<20), path: p}
 	}
 	out := &traceOutcome{mismatch: map[int]string{}, drift: map[int]string{}}
+	// watchdog: a driver case normally takes milliseconds.  One that does not come back is the library not terminating
+	// (a goroutine cannot be killed, so the verdict is settled by re-running the case in a child process).
+	var curCase, curStart int64
+	atomic.StoreInt64(&curCase, -1)
+	stopWatch := make(chan struct{})
+	defer close(stopWatch)
+	go func() {
+		tk := time.NewTicker(2 * time.Second)
+		defer tk.Stop()
+		for {
+			select {
+			case <-stopWatch:
+				return
+			case <-tk.C:
+				i := atomic.LoadInt64(&curCase)
+				if i < 0 || time.Now().UnixNano()-atomic.LoadInt64(&curStart) < int64(caseDeadline()) {
+					continue
+				}
+				c.caseTimedOut(f, cases[i])
+			}
+		}
+	}()
 	for i, cs := range cases {
+		atomic.StoreInt64(&curStart, time.Now().UnixNano())
+		atomic.StoreInt64(&curCase, int64(i))
 		h := fnv.New64a()
 		h.Write(cs)
 		c.Distinct(f.Name + ":" + strconv.FormatUint(h.Sum64(), 36))
@@ -501,6 +526,7 @@ func (c *Ctx) validate(f *Family, cases []json.RawMessage, shards int) (*traceOu
 			f.Run(cs, w)
 		}()
 	}
+	atomic.StoreInt64(&curCase, -1)
 	for _, w := range ws {
 		w.w.Flush()
 		w.f.Close()
@@ -689,6 +715,45 @@ func (c *Ctx) TraceCheck(f *Family, cases []json.RawMessage) {
 		idx = confirmed
 		c.report(f, s, cases[idx], out.mismatch[idx], len(bySig[s]))
 	}
+}
+
+// caseDeadline: how long one driver case may run before it counts as not terminating (VERIF_CASE_DEADLINE seconds)
+func caseDeadline() time.Duration {
+	if v, err := strconv.Atoi(os.Getenv("VERIF_CASE_DEADLINE")); err == nil && v > 0 {
+		return time.Duration(v) * time.Second
+	}
+	return 240 * time.Second
+}
+
+// caseTimedOut settles a case that did not come back: the case is written as a replay file and re-run alone in a child
+// process under the same deadline.  Does not return.
+func (c *Ctx) caseTimedOut(f *Family, cs json.RawMessage) {
+	sig := f.Name + "/no-termination"
+	line := `{"k":"no-termination"} // the driver case did not finish within ` + caseDeadline().String()
+	if os.Getenv("VERIF_WATCHDOG_CHILD") == "1" {
+		os.Exit(3) // the child itself hung: the parent draws the conclusion
+	}
+	dir := filepath.Join(verifRoot, "replay", c.Prop)
+	os.MkdirAll(dir, 0o755)
+	p := filepath.Join(dir, regexp.MustCompile(`[^A-Za-z0-9_.-]+`).ReplaceAllString(sig, "_")+".json")
+	b, _ := json.MarshalIndent(map[string]interface{}{"property": c.Prop, "family": f.Name, "sig": sig, "rejected_event": line,
+		"cases_with_this_signature": 1, "case": cs}, "", " ")
+	os.WriteFile(p, b, 0o644)
+	cctx, cancel := context.WithTimeout(context.Background(), 2*caseDeadline()+60*time.Second)
+	defer cancel()
+	cmd := exec.CommandContext(cctx, os.Args[0], c.Prop, "--tier", c.Tier, "--replay", p)
+	cmd.Env = append(os.Environ(), "VERIF_WATCHDOG_CHILD=1", "VERIF_EVIDENCE_DIR="+filepath.Join(c.Work, "child-evidence"))
+	out, _ := cmd.CombinedOutput()
+	hung := cctx.Err() == context.DeadlineExceeded || (cmd.ProcessState != nil && cmd.ProcessState.ExitCode() == 3)
+	if hung {
+		fmt.Printf("VIOLATION property=%s replay=%s\n  signature: %s (1 cases)\n  rejected event: %s\n", c.Prop, p, sig, line)
+		c.mu.Lock()
+		c.violations = append(c.violations, Violation{Sig: sig, What: line, Replay: p})
+		c.mu.Unlock()
+		c.Finish() // writes the evidence file and exits 1
+	}
+	c.Infra("a driver case exceeded %s but finished when re-run alone (family %s): %s\n%s", caseDeadline(), f.Name, string(cs), tail(string(out), 5))
+	c.Finish() // exits 2
 }
 
 func (c *Ctx) report(f *Family, sig string, cs json.RawMessage, line string, count int) {
